@@ -166,7 +166,7 @@ func genC13Base(t *rapid.T) World {
 	case 1:
 		leaf.Validity = &core.Validity{From: "2021-02-03", Duration: "3y"}
 	case 2:
-		leaf.Validity = &core.Validity{Duration: "3y2m"}
+		leaf.Validity = &core.Validity{Duration: rapid.SampledFrom([]string{"3y2m", "3y2m", "0d", "0y0m0d", "00y1d", "12m"}).Draw(t, "durv")}
 	case 3:
 		leaf.Validity = &core.Validity{Until: "2041-06-07"}
 	case 4:
@@ -179,7 +179,7 @@ func genC13Base(t *rapid.T) World {
 	if rapid.Bool().Draw(t, "profile") {
 		p := core.Profile{File: "profiles/leafprofile.yaml", Name: "leaf profile"}
 		if rapid.Bool().Draw(t, "pvalidity") {
-			p.Validity = &core.Validity{Duration: rapid.SampledFrom([]string{"1y", "2y6m", "400d"}).Draw(t, "pdur")}
+			p.Validity = &core.Validity{Duration: rapid.SampledFrom([]string{"1y", "2y6m", "400d", "0d", "0y0m"}).Draw(t, "pdur")}
 			switch rapid.IntRange(0, 3).Draw(t, "pvalidity-shape") {
 			case 0:
 				p.Validity.From = "2020-05-06"
